@@ -20,6 +20,7 @@ import (
 	"strings"
 	"testing"
 
+	"github.com/regclient/regclient"
 	"github.com/regclient/regclient/config"
 	"github.com/regclient/regclient/internal/verif/ev"
 	"github.com/regclient/regclient/internal/verif/explore"
@@ -42,10 +43,13 @@ type Cfg struct {
 	MinCh   int    `json:"chunk_min"`
 	Target  string `json:"target"` // reg, dir
 	Preload bool   `json:"preload,omitempty"`
+	// Via: "" chunk and limit are per-host settings; "client" they are the client-wide settings
+	// (regclient.WithBlobSize); "both" the client-wide chunk is Chunk and the host's is 2*Chunk
+	Via string `json:"via,omitempty"`
 }
 
 func (c Cfg) String() string {
-	return fmt.Sprintf("len=%d chunk=%d max=%d desc=%s/%s reader=%s loc=%q minchunk=%d tgt=%s", c.Len, c.Chunk, c.Max, c.Desc, c.Algo, c.Reader, c.Loc, c.MinCh, c.Target)
+	return fmt.Sprintf("len=%d chunk=%d max=%d desc=%s/%s reader=%s loc=%q minchunk=%d tgt=%s via=%q", c.Len, c.Chunk, c.Max, c.Desc, c.Algo, c.Reader, c.Loc, c.MinCh, c.Target, c.Via)
 }
 
 func content(n int) []byte {
@@ -256,7 +260,17 @@ func run(t *testing.T, c *explore.Ctx, cfg Cfg, scratch string) *result {
 			return nil
 		}
 		hc := config.Host{Name: host, Hostname: host, TLS: config.TLSDisabled, BlobChunk: int64(cfg.Chunk), BlobMax: int64(cfg.Max)}
-		rc := rcenv.New(net, nil, rcenv.Opts{Hosts: []config.Host{hc}})
+		ro := rcenv.Opts{}
+		switch cfg.Via {
+		case "client":
+			hc.BlobChunk, hc.BlobMax = 0, 0
+			ro.Extra = []regclient.Opt{regclient.WithBlobSize(int64(cfg.Chunk), int64(cfg.Max))}
+		case "both":
+			hc.BlobChunk = int64(2 * cfg.Chunk)
+			ro.Extra = []regclient.Opt{regclient.WithBlobSize(int64(cfg.Chunk), int64(cfg.Max))}
+		}
+		ro.Hosts = []config.Host{hc}
+		rc := rcenv.New(net, nil, ro)
 		r, err := ref.New(host + "/" + repo + ":t")
 		if err != nil {
 			t.Fatal(err)
@@ -383,11 +397,17 @@ func grid(thorough bool) []item {
 					for _, a := range []string{"sha256", "sha512"} {
 						for _, rd := range readers {
 							for _, loc := range []string{"", "abs", "query"} {
-								for _, mc := range []int{0, c + 1} {
+								for _, mc := range []int{0, c + 1, 3 * c} {
 									if (loc != "" || mc != 0) && (a == "sha512" || rd == "onebyte") {
 										continue
 									}
 									out = append(out, item{Cfg{Len: n, Chunk: c, Max: mx, Desc: d, Algo: a, Reader: rd, Loc: loc, MinCh: mc, Target: "reg"}, 0})
+									if loc == "" && (mc != 0 || d == "right" || d == "absent") {
+										out = append(out, item{Cfg{Len: n, Chunk: c, Max: mx, Desc: d, Algo: a, Reader: rd, MinCh: mc, Target: "reg", Via: "client"}, 0})
+										if mc != 0 {
+											out = append(out, item{Cfg{Len: n, Chunk: c, Max: mx, Desc: d, Algo: a, Reader: rd, MinCh: mc, Target: "reg", Via: "both"}, 0})
+										}
+									}
 								}
 							}
 							if mx == -1 {
